@@ -572,6 +572,57 @@ var scenarioTable = map[string]func(s *sc){
 		s.inject(2, s.adv.mkVC(voteD{ht: protocol.LEAN_HELIX_VIEW_CHANGE, inst: clusterInstance, h: 1, v: 2, sender: s.cl.ids[1]}, nil), "vc_no_proof")
 		s.flush(any)
 	},
+	// H13: signed headers with trailing bytes (signed as sent by the Byzantine member).  (a) its COMMIT ends up in the
+	// block proof, (b) its PREPARE in a lock proof, (c) its vote in the honest leader's NEW_VIEW
+	"noncanonical_commit_in_block_proof": func(s *sc) {
+		s.startNodes()
+		s.flush(kinds("PP"))
+		var a *vBlock
+		for _, pp := range s.adv.ppSeen {
+			a, _ = pp.Block().(*vBlock)
+		}
+		for _, i := range []int{0, 2, 3} {
+			s.inject(i, s.adv.mkPaddedC(ref(protocol.LEAN_HELIX_COMMIT, 1, 0, a), s.cl.ids[1]), "c_noncanonical")
+		}
+		s.flush(kinds("P"))
+		s.flush(func(p pending, k string) bool { return k == "C" && p.from != "n3" }) // n3's COMMITs are slow: quorum = n0, n2 + Byzantine
+		s.flush(any)
+	},
+	"noncanonical_prepare_in_lock_proof": func(s *sc) {
+		s.startNodes()
+		s.flush(kinds("PP"))
+		var a *vBlock
+		for _, pp := range s.adv.ppSeen {
+			a, _ = pp.Block().(*vBlock)
+		}
+		for _, i := range []int{0, 2, 3} {
+			s.inject(i, s.adv.mkPaddedP(ref(protocol.LEAN_HELIX_PREPARE, 1, 0, a), s.cl.ids[1]), "p_noncanonical")
+		}
+		s.flush(kinds("P"))
+		s.dropAll(kinds("C"))
+		for _, i := range []int{0, 2, 3} {
+			s.timeout(i)
+		}
+		s.dropAll(kinds("VC"))
+		for _, i := range []int{0, 2, 3} {
+			s.timeout(i) // view 2, honest leader n2 must count the locked votes of n0 and n3
+		}
+		s.flush(any)
+	},
+	"noncanonical_vote_in_new_view": func(s *sc) {
+		s.startNodes()
+		s.dropAll(any)
+		for round := 0; round < 2; round++ {
+			for _, i := range []int{0, 2, 3} {
+				s.timeout(i)
+			}
+			if round == 0 {
+				s.dropAll(kinds("VC"))
+			}
+		}
+		s.inject(2, s.adv.mkPaddedVC(voteD{ht: protocol.LEAN_HELIX_VIEW_CHANGE, inst: clusterInstance, h: 1, v: 2, sender: s.cl.ids[1]}, nil), "vc_noncanonical")
+		s.flush(any) // n2 is elected with the Byzantine vote among the counted ones; its NEW_VIEW must be accepted by n0 and n3
+	},
 	// C10: a second, fully valid NEW_VIEW for the view the node is already in, proposing another block
 	"second_new_view_same_view": func(s *sc) {
 		s.startNodes()
